@@ -99,7 +99,7 @@ pub fn spec() -> Spec<Case> {
     Spec {
         id: "C03",
         level: "exploration",
-        rule: "stateful histories (<=22 ops) over 2-3 files and the whole supported porcelain: edits by a human and up to 3 sessions, commit (all / by file), amend, branch/switch/checkout -f, rebase (all kinds, conflicts), cherry-pick (incl. -n), merge (ff/real/conflicting/aborted), merge --squash, reset --soft/--mixed/--hard, stash push/pop/apply/drop, checkout -- <path>, restore [--staged], mv, rm, revert, branch -D; weighted toward 'AI work pending -> destructive op -> a person writes at the same line numbers -> commit'. Oracle (safety only): after every commit, at every branch tip at the end, and for every note in the repository, a line reported for session S must have been written by S according to the content-addressed model (filler: S wrote such text at some point). Loss of attribution is never an alarm. non-trivial = a destructive/discarding op executed in a history with AI checkpoints and a later human edit; distinct by case hash".into(),
+        rule: "stateful histories (<=22 ops; blocks incl. an aimed trap block - AI work pending, optionally a partial commit of another file, a discarding op aimed at that very file, a person writes at the same line numbers -, a reject-and-rewrite block with explicit human checkpoints, a reset --soft/--mixed with uncommitted work in the tree, multi-commit rewrite scenarios, CI squash rewrites) over 2-3 files and the whole supported porcelain: edits by a human and up to 3 sessions, commit (all / by file), amend, branch/switch/checkout -f, rebase (all kinds, conflicts), cherry-pick (incl. -n), merge (ff/real/conflicting/aborted), merge --squash, reset --soft/--mixed/--hard, stash push/pop/apply/drop, checkout -- <path>, restore [--staged], mv, rm, revert, branch -D; weighted toward 'AI work pending -> destructive op -> a person writes at the same line numbers -> commit'. Oracle (safety only): after every commit, at every branch tip at the end, and for every note in the repository, a line reported for session S must have been written by S according to the content-addressed model (filler: S wrote such text at some point). Loss of attribution is never an alarm. non-trivial = a destructive/discarding op executed in a history with AI checkpoints and a later human edit; distinct by case hash".into(),
         cases_quick: 224,
         cases_thorough: 6000,
         shrink_iters: 30,
